@@ -118,9 +118,9 @@ func (c *conn) Close() error {
 	return nil
 }
 
-func (c *conn) LocalAddr() net.Addr                { return addr("local") }
-func (c *conn) RemoteAddr() net.Addr               { return addr(c.name) }
-func (c *conn) SetDeadline(t time.Time) error      { return nil }
+func (c *conn) LocalAddr() net.Addr           { return addr("local") }
+func (c *conn) RemoteAddr() net.Addr          { return addr(c.name) }
+func (c *conn) SetDeadline(t time.Time) error { return nil }
 func (c *conn) SetReadDeadline(t time.Time) error {
 	if c.faults && c.closed == 0 && vsync.Choose(2) == 1 {
 		return errors.New("injected set-read-deadline error")
@@ -162,11 +162,12 @@ func (h *handler) OnExit(s *stcp.Session) {
 }
 
 type world struct {
-	w    *mc.World
-	h    *handler
-	mgr  *stcp.SessionMgr
-	max  int32
-	seen int32 // highest count observed
+	w     *mc.World
+	h     *handler
+	mgr   *stcp.SessionMgr
+	count func() int32 // set when another manager type is under test
+	max   int32
+	seen  int32 // highest count observed
 }
 
 func newWorld(w *mc.World) *world {
@@ -287,7 +288,12 @@ func countInvariant(w *mc.World) error {
 		return nil
 	}
 	x := xi.(*world)
-	n := x.mgr.ConnCount()
+	n := int32(0)
+	if x.count != nil {
+		n = x.count()
+	} else {
+		n = x.mgr.ConnCount()
+	}
 	if n < 0 {
 		return fmt.Errorf("connection count is negative (%d)", n)
 	}
@@ -663,6 +669,79 @@ func mgrOptionsScenario() *mc.Scenario {
 		}}
 }
 
+// ---- the request/response ("echo") manager behind the same accept loop ----
+
+type echoH struct {
+	w      *mc.World
+	served int
+	ended  int
+}
+
+func (h *echoH) RunEcho(s *stcp.Echo) {
+	var b [1]byte
+	_ = s.Read(b[:])
+	h.w.Touch()
+	h.served++
+	s.Close()
+	s.ReleaseRef()
+	h.w.Touch()
+	h.ended++
+}
+
+func echoAcceptScenario(nconn int, max int32, pb, fb [2]int) *mc.Scenario {
+	return &mc.Scenario{Name: fmt.Sprintf("accept-echo/conns=%d/max=%d", nconn, max), PB: pb, FB: fb,
+		Main: func(w *mc.World) {
+			eh := &echoH{w: w}
+			mgr := stcp.NewEchoMgr(eh)
+			x := &world{w: w, max: max, count: mgr.ConnCount}
+			w.Data["x"] = x
+			srv := stcp.NewTCPSrv("fake", mgr)
+			ln := &listener{w: w, ch: make(chan net.Conn, 4)}
+			var conns []*conn
+			for i := 0; i < nconn; i++ {
+				conns = append(conns, newConn(w, fmt.Sprintf("peer%d", i), false))
+			}
+			w.Go("acceptor", func() { _ = stcp.VerifLoopAccept(srv, ln, stcp.WithMaxConn(max)) })
+			w.Go("dialer", func() {
+				for _, c := range conns {
+					vsync.BeforeSend(ln.ch)
+					ln.ch <- c
+				}
+				vsync.Close(ln.ch)
+			})
+			for i, c := range conns {
+				c := c
+				w.Go(fmt.Sprintf("peer%d", i), func() {
+					vsync.BeforeSend(c.in)
+					c.in <- []byte{'a'}
+				})
+			}
+			w.Join()
+			vsync.BlockOn(func() bool {
+				for _, t := range w.S.Threads() {
+					if t.Lib && !t.Finished() {
+						return false
+					}
+				}
+				return true
+			})
+			w.Touch()
+			for i, c := range conns {
+				if c.closed == 0 {
+					w.Failf("connection %d was neither served to its end nor closed on accept", i)
+				}
+			}
+			if eh.served != eh.ended {
+				w.Failf("%d echo sessions started serving, %d ended", eh.served, eh.ended)
+			}
+			if n := mgr.ConnCount(); n != 0 {
+				w.Failf("every connection is finished but the connection count is %d", n)
+			}
+			w.Obs("served=%d of %d", eh.served, nconn)
+		},
+		Invariant: countInvariant}
+}
+
 func scenarios() []*mc.Scenario {
 	scs := []*mc.Scenario{mgrOptionsScenario()}
 	// flush before local close
@@ -700,13 +779,17 @@ func scenarios() []*mc.Scenario {
 		acceptScenario(2, 2, [2]int{1, 2}, [2]int{4, 6}),
 		acceptScenario(3, 1, [2]int{1, 1}, [2]int{3, 5}),
 		acceptScenario(3, 2, [2]int{1, 1}, [2]int{3, 5}),
+		echoAcceptScenario(1, 1, [2]int{2, 3}, [2]int{0, 0}),
+		echoAcceptScenario(2, 1, [2]int{2, 3}, [2]int{4, 6}),
+		echoAcceptScenario(3, 1, [2]int{1, 2}, [2]int{3, 5}),
+		echoAcceptScenario(3, 2, [2]int{1, 2}, [2]int{3, 5}),
 	)
 	return scs
 }
 
 func main() {
 	r := ev.Start("C16")
-	r.Rule("every interleaving (stated preemption / free-choice bounds, every select resolution) of the two session goroutines with local Send/Close, a peer that writes frames and may close, a read handler that may panic, and explorer-chosen injected faults (read error/timeout, write error/timeout; budget 1 quick / 2 thorough) over a fake net.Conn built from scheduler-visible channels; the accept loop over a fake listener with 1-3 connections and maximum 1-2; oracles: exit callback exactly once per session, connection closed, both goroutines finished (else deadlock), connection count back to zero, never negative, never above the maximum at any scheduling decision, surplus connections closed on accept, bytes accepted by Send before a local Close reach the peer completely and in order")
+	r.Rule("every interleaving (stated preemption / free-choice bounds, every select resolution) of the two session goroutines with local Send/Close, a peer that writes frames and may close, a read handler that may panic, and explorer-chosen injected faults (read error/timeout, write error/timeout; budget 1 quick / 2 thorough) over a fake net.Conn built from scheduler-visible channels; the accept loop over a fake listener with 1-3 connections and maximum 1-2, for the session manager and for the echo manager; oracles: exit callback exactly once per session, connection closed, both goroutines finished (else deadlock), connection count back to zero, never negative, never above the maximum at any scheduling decision, surplus connections closed on accept, bytes accepted by Send before a local Close reach the peer completely and in order")
 	r.Assume("real kernel TCP is replaced by a fake net.Conn whose Read blocks on a channel and wakes on Close; deadlines are no-ops and timeouts are injected as explorer choices", "the accept loop is entered through the overlay hook VerifLoopAccept (LoopStart minus net.Listen)")
 	mc.Main(r, scenarios())
 }
